@@ -406,6 +406,7 @@ FAULTS = [
     "bad-utf8",           # frame whose payload is not UTF-8
     "not-json",           # frame that is not JSON
     "json-not-dict",      # valid JSON, not an object
+    "deep-json",          # well-framed JSON nested deeper than the decoder's recursion limit
     "no-command",         # object without "command"
     "command-not-str",    # "command": 5
     "unknown-command",    # "command": "frobnicate"
@@ -428,7 +429,7 @@ def k2_serve(rep: Report, tier: str) -> None:
 
     def body(c: Ctx) -> None:
         script = [FAULTS[c.choose(f"client{i}", len(FAULTS))] for i in range(nclients)]
-        gone = [bool(c.bool(f"gone{i}")) if script[i] in ("bad-utf8", "not-json", "json-not-dict") else False for i in range(nclients)]
+        gone = [bool(c.bool(f"gone{i}")) if script[i] in ("bad-utf8", "not-json", "json-not-dict", "deep-json") else False for i in range(nclients)]
         # the last client is always a well-formed status request: it must be answered
         script.append("ok-status")
         gone.append(False)
@@ -459,6 +460,8 @@ def k2_serve(rep: Report, tier: str) -> None:
                     return "{not json"
                 if k == "json-not-dict":
                     return "[1, 2]"
+                if k == "deep-json":
+                    return "[" * 100000 + "]" * 100000
                 if k == "no-command":
                     return json.dumps({"is_tty": False, "terminal_width": 80})
                 if k == "command-not-str":
@@ -471,7 +474,7 @@ def k2_serve(rep: Report, tier: str) -> None:
                 k = script[state["i"]]
                 # a peer that hung up cannot be written to; whether a misbehaving client still
                 # reads replies is its own choice (solver-chosen)
-                if k in ("hangup-before-reply", "close-early") or (k in ("bad-utf8", "not-json", "json-not-dict") and gone[state["i"]]):
+                if k in ("hangup-before-reply", "close-early") or (k in ("bad-utf8", "not-json", "json-not-dict", "deep-json") and gone[state["i"]]):
                     raise BrokenPipeError("peer gone")
                 log.append(["reply", json.loads(data)])
 
@@ -550,6 +553,7 @@ def client(kind):
     elif kind == "bad-utf8": s.sendall(frame(b"\xff\xfe"))
     elif kind == "not-json": s.sendall(frame(b"{{not json"))
     elif kind == "json-not-dict": s.sendall(frame(b"[1, 2]"))
+    elif kind == "deep-json": s.sendall(frame(b"[" * 100000 + b"]" * 100000))
     elif kind == "no-command": s.sendall(frame(json.dumps({{"is_tty": False, "terminal_width": 80}}).encode()))
     elif kind == "command-not-str": s.sendall(frame(json.dumps({{"command": 5, "is_tty": False, "terminal_width": 80}}).encode()))
     elif kind == "unknown-command": s.sendall(frame(json.dumps({{"command": "frobnicate", "is_tty": False, "terminal_width": 80}}).encode()))
